@@ -299,7 +299,10 @@ class Exec(HeapMixin, SpecEvalMixin, ExprMixin, StmtMixin, CallMixin):
             if o.kind == "ret":
                 names["result"] = o.val
                 for gname, (lv, gkind) in c.ghost_out.items():
-                    names[gname] = getattr(self, "last_locals", {}).get(id(o.st), {}).get(lv, VNone)
+                    gv = getattr(self, "last_locals", {}).get(id(o.st), {}).get(lv, VNone)
+                    if gv is VNone or gv is None:
+                        gv = self.fresh_value(fin, gkind, "gout_none_" + gname)
+                    names[gname] = self.unwrap(gv)
                 if c.returns is not None:
                     names["result"] = self.check_result_kind(fin, o.val, c.returns)
                 if c.ghost_ensures:
